@@ -34,8 +34,22 @@ let () = iter_lines (fun line ->
       let x = List.nth b 0 and y = List.nth b 1 and rw = List.nth b 2 and rh = List.nth b 3 in
       let sw = iz (tjscaled (zi w) num den) and sh = iz (tjscaled (zi h) num den) in
       let r = tj_set_region (zi w) (zi h) num den mcuw (zi x) (zi y) (zi rw) (zi rh) in
-      Printf.printf "tj sub=%d sf=%d/%d dims %d %d full=0 set=%s\n" sub (iz num) (iz den) sw sh
-        (match r with TjErr -> "-1" | _ -> "0 dec=0")
+      (* hazard 5 (crop + merged upsampling + region so narrow that jpeg_crop_scanline re-initialises the upsampler) *)
+      let fu = List.nth a 1 = 1 and pfi = List.nth a 3 in
+      let ycc3 = nc = 3 in
+      let grayout = ycc3 && pfi mod 5 = 2 in
+      let hz = match r with
+        | TjOk (x1, _, w1, _) when iz w1 <> sw ->
+          let m = zi (8 * iz num / iz den) in
+          (match derive_config gen_scale_chain gen_DCTSIZE (zi w) (zi h) zcomps m (zi 8) (not fu) ycc3 (ycc3 && not grayout) grayout with
+           | Some k ->
+             (match crop_scanline k.k_ow (crop_align (nc = 1) k.k_M k.k_hmax) x1 w1 with
+              | CropOk (_, w', _, _) -> if crop_reinit_hazard gen_DCTSIZE (zi w) zcomps k w' then 5 else 0
+              | _ -> 0)
+           | None -> 0)
+        | _ -> 0 in
+      Printf.printf "tj sub=%d sf=%d/%d dims %d %d full=0 set=%s | haz %d\n" sub (iz num) (iz den) sw sh
+        (match r with TjErr -> "-1" | _ -> "0 dec=0") hz
     end else begin
       let d = ints (List.nth fs 1) in
       let m = List.nth d 0 and fancy = List.nth d 1 = 1 and ocs = List.nth d 4 in
